@@ -72,6 +72,22 @@ type Engine struct {
 	altForm     map[string]string // universally quantified formula -> equivalent conjunction with index-shifted variants
 	altOnly     map[string][]string
 	loopTimeCtx string // clock at entry of the loop whose clause is being evaluated
+	letFrames   [][]letBind
+}
+
+type letBind struct{ name, term string }
+
+func (e *Engine) pushLets() { e.letFrames = append(e.letFrames, nil) }
+
+// popLets wraps body in the let bindings collected since the matching pushLets.
+func (e *Engine) popLets(body string) string {
+	top := len(e.letFrames) - 1
+	binds := e.letFrames[top]
+	e.letFrames = e.letFrames[:top]
+	for i := len(binds) - 1; i >= 0; i-- {
+		body = fmt.Sprintf("(let ((%s %s)) %s)", binds[i].name, binds[i].term, body)
+	}
+	return body
 }
 
 // enrich rewrites universally quantified formulas that have an index-shifted variant into the
@@ -198,7 +214,10 @@ func (e *Engine) recStoreIf(st *State, heap string, base T, cond T) {
 				goal = fmt.Sprintf("(>= (newid %s) %s)", base.S, since)
 			}
 			for _, b := range bases {
-				goal = fmt.Sprintf("(or %s (= %s %s))", goal, base.S, b)
+				if strings.HasPrefix(b, "ELEMS:") != (base.Sort == "ELEMS") {
+					continue
+				}
+				goal = fmt.Sprintf("(or %s (= %s %s))", goal, base.S, strings.TrimPrefix(b, "ELEMS:"))
 			}
 			e.oblige(st, "loop-frame", fmt.Sprintf("loop%d:%s", e.loops(f.fn).ordinal[head], heap), tImp(cond, T{goal, sBool}), token.NoPos)
 		}
@@ -323,8 +342,21 @@ func (e *Engine) fresh(sort, hint string) T {
 
 // name gives a term a name so that later terms stay small.
 func (e *Engine) name(t T, hint string) T {
-	if e.inlineTerms > 0 || len(t.S) < 24 {
+	if len(t.S) < 24 {
 		return t
+	}
+	if e.inlineTerms > 0 {
+		// inside a quantifier / recursive definition body: share the term through a let
+		if len(e.letFrames) == 0 || len(t.S) < 60 {
+			return t
+		}
+		if t.Sort == sBool && (strings.Contains(t.S, "(forall ") || strings.Contains(t.S, "(exists ")) {
+			return t
+		}
+		n := e.freshName("l" + hint)
+		top := len(e.letFrames) - 1
+		e.letFrames[top] = append(e.letFrames[top], letBind{n, t.S})
+		return T{n, t.Sort}
 	}
 	if t.Sort == sBool && (strings.Contains(t.S, "(forall ") || strings.Contains(t.S, "(exists ")) {
 		return t // quantified formulas stay visible (polarity-aware enrichment, triggers)
@@ -378,7 +410,7 @@ func (e *Engine) oblige(st *State, kind, label string, goal T, pos token.Pos) {
 		fn = funcDisplayName(e.top)
 	}
 	name := fmt.Sprintf("%s#%s:%s", fn, kind, label)
-	o := &Obligation{Name: name, Kind: kind, Func: fn, PC: st.pc.S, Goal: e.enrich(goal.S, false), At: len(e.lines), Instance: e.instCount[name]}
+	o := &Obligation{Name: name, Kind: kind, Func: fn, PC: e.enrich(st.pc.S, true), Goal: e.enrich(goal.S, false), At: len(e.lines), Instance: e.instCount[name]}
 	if pos.IsValid() {
 		o.Pos = e.P.Fset.Position(pos)
 	}
@@ -1229,6 +1261,12 @@ func (e *Engine) loadGlobal(st *State, g *ssa.Global) Val {
 
 // isErrorSentinel: initialised in init by errors.New / fmt.Errorf.
 func (e *Engine) isErrorSentinel(g *ssa.Global) bool {
+	if strings.HasPrefix(g.Name(), "Err") && !e.inModule(g.Pkg.Pkg.Path()) {
+		if types.Identical(g.Type().(*types.Pointer).Elem(), types.Universe.Lookup("error").Type()) {
+			e.trust("library variable " + g.String() + " is a non-nil sentinel error")
+			return true
+		}
+	}
 	init := g.Pkg.Func("init")
 	if init == nil {
 		return false
